@@ -258,6 +258,21 @@ func checkCoeffs(c coeffsCase, rec *Rec) error {
 			}
 		}
 	}
+	// the table belongs to the caller: overwriting it must not change what a later call returns
+	for _, row := range rows {
+		for k := range row {
+			row[k] = -7
+		}
+	}
+	again := comb.Coeffs(c.N)
+	for m, row := range again {
+		for k, v := range row {
+			want := new(big.Int).Binomial(int64(m), int64(k))
+			if !want.IsInt64() || want.Int64() != int64(v) {
+				return fmt.Errorf("Coeffs(%d)[%d][%d] = %d (want %v) after the caller overwrote the table returned by an earlier call", c.N, m, k, v, want)
+			}
+		}
+	}
 	rec.NonTrivial(c.N >= 2)
 	return nil
 }
